@@ -255,6 +255,9 @@ def _worker(arg):
         try:
             with np.errstate(all="ignore"):
                 Fb = np.array(F, dtype=np.float64) / scale / np.outer(kr, kr)
+                Fraw = {}
+                for r_, c_, v_ in zip(b1, b2, cnt):
+                    Fraw.setdefault(r_, {})[c_] = v_ / scale       # the stored value of each record (pixel output never mirrors)
                 selb = clr.matrix(balance="KR", chunksize=2, **fkw)
                 selbs = clr.matrix(balance="KR", sparse=True, chunksize=3, **fkw)
                 for kx, (i0, i1, j0, j1) in enumerate(wins):
@@ -270,6 +273,17 @@ def _worker(arg):
                     if not (okb and oks) and len(res["fails"]) < 5:
                         res["fails"].append({"window": [i0, i1, j0, j1], "chunk": "2", "balanced": "KR (divisive)", "dense_ok": bool(okb), "sparse_ok": bool(oks),
                                              "got_dense": gb.tolist(), "expected_dense": eb.tolist()})
+                    # ... and the pixel table of the window describes the same values, whichever index it carries
+                    for ign in (False, True):
+                        pb = clr.matrix(balance="KR", as_pixels=True, join=False, ignore_index=ign, chunksize=3, **fkw)[i0:i1, j0:j1]
+                        res["nq"] += 1
+                        gotp = [(int(a), int(b_), float(v)) for a, b_, v in zip(pb["bin1_id"], pb["bin2_id"], pb["balanced"])] if "balanced" in pb.columns else None
+                        okp = gotp is not None and len(gotp) == sum(1 for t in stored if i0 <= t[1] < i1 and j0 <= t[2] < j1) and all(
+                            (np.isnan(v) and np.isnan(Fraw[a][b_] / (kr[a] * kr[b_]))) or np.isclose(v, Fraw[a][b_] / (kr[a] * kr[b_]), rtol=1e-12, atol=0)
+                            for a, b_, v in gotp)
+                        if not okp and len(res["fails"]) < 5:
+                            res["fails"].append({"window": [i0, i1, j0, j1], "chunk": "3", "balanced": "KR (divisive)", "as_pixels": True, "ignore_index": ign,
+                                                 "got": None if gotp is None else gotp[:6]})
         except Exception as ex:
             if len(res["fails"]) < 5:
                 res["fails"].append({"window": "balanced windows", "balanced": "KR (divisive)", "error": repr(ex)})
